@@ -249,7 +249,7 @@ func run(c *hlib.Ctx) *hlib.Run {
 		nops := 5 + s.Draw(36, "n-ops")
 		var hist []string
 		for op := 0; op < nops && viol == nil; op++ {
-			kind := s.Pick([]int{8, 4, 3, 2, 3}, "op")
+			kind := s.Pick([]int{8, 4, 3, 2, 3, 1, 1}, "op")
 			switch kind {
 			case 0, 1: // Match / MatchFrom
 				ii := s.Draw(nin, "input")
@@ -326,6 +326,25 @@ func run(c *hlib.Ctx) *hlib.Run {
 				out.Counters["op_SetTraceConfiguration"]++
 				hist = append(hist, "Trace("+traceOn+")@"+insts[cur].name)
 				tr("op %d: SetTraceConfiguration(%s) on %s", op, traceOn, insts[cur].name)
+			case 5: // a call that fails: MatchFrom over a reader that breaks
+				in := inputs[s.Draw(nin, "input")]
+				e, kname := v2kit.MakeErr(s.Draw(v2kit.ErrKinds, "fault-kind"))
+				rd := v2kit.NewSimReader(append([]byte(nil), in.Data...), s, 0, &v2kit.Fault{At: s.Draw(len(in.Data)+1, "fault-at"), Err: e, WithData: s.Draw(2, "with-data") == 1})
+				_, err := insts[cur].c.MatchFrom(rd)
+				out.Counters["op_MatchFrom_failing_reader"]++
+				hist = append(hist, fmt.Sprintf("MatchFrom(failing:%s)@%s", kname, insts[cur].name))
+				tr("op %d: MatchFrom over a reader failing with %s on %s -> err=%v", op, kname, insts[cur].name, err)
+			case 6: // an unrelated instance with another threshold is built and used in between
+				other := []float64{0.5, 0.7, 0.9, 1.0}[s.Draw(4, "decoy-threshold")]
+				dc := classifier.NewClassifier(other)
+				for k := 0; k < 1+s.Draw(3, "decoy-docs"); k++ {
+					d := world[s.Draw(len(world), "decoy-doc")]
+					dc.AddContent(d.Category, d.Name, d.Variant, append([]byte(nil), d.Data...))
+				}
+				dc.Match(append([]byte(nil), inputs[s.Draw(nin, "input")].Data...))
+				out.Counters["op_decoy_instance"]++
+				hist = append(hist, fmt.Sprintf("decoy-instance(threshold %v)", other))
+				tr("op %d: built and used an unrelated instance with threshold %v", op, other)
 			case 4: // switch instance
 				cur = s.Draw(len(insts), "instance")
 				traceOn = "?"
